@@ -59,6 +59,10 @@ pub enum FinalReply {
     Extend(usize),
     /// same content, BER long-form lengths
     BerLong,
+    /// same content in another BER-but-not-DER spelling: 0 = only the [0] version length in long form (81 03),
+    /// 1 = outer SEQUENCE of indefinite length, 2 = pubKeyAuth as a constructed OCTET STRING of two segments,
+    /// 3 = the [3] wrapper of indefinite length
+    BerForm(u8),
     ExtraTrailingField,
     MissingPubKeyAuth,
     EmptyPubKeyAuth,
@@ -116,6 +120,9 @@ pub struct ServerParams {
     pub manual: bool,
     /// reactivations reuse the share id of the first activation (a server may do either)
     pub reuse_share_id: bool,
+    /// TLS peer only: every server message (TPKT / fast-path frames, not the CredSSP messages) is cut into TLS records of at most this many plaintext bytes (0 = one
+    /// record per message), so that record boundaries fall inside frame headers and bodies
+    pub tls_record_cap: usize,
     /// flags of the basic security header of the licensing PDU (0x0080 SEC_LICENSE_PKT, often | 0x0200)
     pub licence_sec_flags: u16,
     /// 1..4: a Set Error Info PDU (ERRINFO_NONE; the client announced support for it) is sent before the server's
@@ -157,6 +164,7 @@ impl Default for ServerParams {
             errinfo_before: 0,
             sdi_priority: 0x70,
             reuse_share_id: false,
+            tls_record_cap: 0,
         }
     }
 }
@@ -1019,6 +1027,20 @@ impl RefServer {
                 let sealed = s2c.wrap(&honest_plain);
                 let pka = der::tlv_wide(der::ctx(3), &der::tlv_wide(der::UNIV_OCTET, &sealed, 3), 3);
                 der::tlv_wide(der::UNIV_SEQ, &[der::explicit(0, &der::integer(2)), pka].concat(), 4)
+            }
+            FinalReply::BerForm(k) => {
+                let sealed = s2c.wrap(&honest_plain);
+                let version = der::explicit(0, &der::integer(2));
+                let indefinite = |tag: u8, content: &[u8]| [vec![tag, 0x80], content.to_vec(), vec![0, 0]].concat();
+                match k {
+                    0 => der::seq(&[der::tlv_wide(der::ctx(0), &der::integer(2), 1), der::explicit(3, &der::octets(&sealed))]),
+                    1 => indefinite(0x30, &[version, der::explicit(3, &der::octets(&sealed))].concat()),
+                    2 => {
+                        let (a, b) = sealed.split_at(sealed.len() / 2);
+                        der::seq(&[version, der::explicit(3, &der::tlv(0x24, &[der::octets(a), der::octets(b)].concat()))])
+                    }
+                    _ => der::seq(&[version, indefinite(0xA3, &der::octets(&sealed))]),
+                }
             }
             FinalReply::ExtraTrailingField => {
                 let sealed = s2c.wrap(&honest_plain);
